@@ -291,10 +291,22 @@ def loop_has_variant(fi, loop) -> (bool, str):
         x = tt[4:tt.rindex(')')]
         first = loop.body[0] if loop.body else None
         if f'{x}.pop(' in body_txt:
-            # the pop must not be conditional: it is a top-level statement of the body
-            for s_ in loop.body:
-                if not isinstance(s_, (ast.If, ast.For, ast.While, ast.Try)) and f'{x}.pop(' in ast.unparse(s_).replace(' ', ''):
-                    return True, f'len({x}) decreases on every iteration'
+            # the pop must not be conditional: every path through the body that reaches its end (no raise / return / break) executes it
+            def pops(s_):
+                return not isinstance(s_, (ast.If, ast.For, ast.While, ast.Try, ast.With)) and f'{x}.pop(' in ast.unparse(s_).replace(' ', '')
+
+            def every_completing_path(stmts):
+                for s_ in stmts:
+                    if pops(s_):
+                        return True
+                    if isinstance(s_, ast.If) and s_.orelse and branch_ok(s_.body) and branch_ok(s_.orelse):
+                        return True
+                return False
+
+            def branch_ok(stmts):
+                return (bool(stmts) and isinstance(stmts[-1], (ast.Raise, ast.Return, ast.Break))) or every_completing_path(stmts)
+            if every_completing_path(loop.body):
+                return True, f'len({x}) decreases on every iteration'
     # (c) while True: v -= 1; if v < 0: raise; ... break
     if isinstance(t, ast.Constant) and t.value is True:
         decs = [s_ for s_ in loop.body if isinstance(s_, ast.AugAssign) and isinstance(s_.op, ast.Sub) and isinstance(s_.target, ast.Name)]
@@ -408,6 +420,19 @@ def check_validations(p, r):
             return
         r.analysed_functions.add(fi.key)
         hit = find_raise_under(fi.node, pred)
+        if hit is None:
+            # the check may live in a private helper that this method calls (transitively)
+            meths = p.methods(ci.key)
+            seen, work = {meth}, [fi]
+            while work and hit is None:
+                g = work.pop()
+                for n in walk_no_nested(g.node):
+                    if isinstance(n, ast.Call) and isinstance(n.func, ast.Attribute) and isinstance(n.func.value, ast.Name) and n.func.value.id == 'self' \
+                            and n.func.attr in meths and n.func.attr.startswith('_') and n.func.attr not in seen:
+                        seen.add(n.func.attr)
+                        h = meths[n.func.attr]
+                        hit = hit or find_raise_under(h.node, pred)
+                        work.append(h)
         if hit is not None:
             r.ok('C20.R4', key, what, src(cls_rel), hit.lineno)
         else:
